@@ -49,6 +49,7 @@ func c19(c *Ctx) {
 	c.stickySignals()
 	c.abandonedProducersAreDrained()
 	c.plainSendsAreTabled()
+	c.consumersDrainUntilClosed()
 }
 
 // ---- R19.9 ---------------------------------------------------------------------------------
@@ -1566,4 +1567,145 @@ func (c *Ctx) plainSendsAreTabled() {
 	}
 	R.Stats["R19.11 plain sends seen (tabled kinds)"] = n
 	R.Min("R19.11", "interruptible sends (select with a send on a non-tabled channel)", sel, 1)
+}
+
+// consumersDrainUntilClosed (R19.12): the goroutine that writes pushed responses to the client stays until the channel is closed.
+func (c *Ctx) consumersDrainUntilClosed() {
+	P, R := c.P, c.R
+	R.Explain("R19.12", "a consumer outlives its producers: a function of internal/session that receives from a response channel it was handed (a chan response.Response parameter or captured variable - the IDLE push channel) returns only after it has seen the channel closed: every return is dominated by the `closed` outcome (ok == false) of a receive from that channel.  The producers (State.PushResponder while idleCh is set) send with blocking sends while holding the user's write transaction; a consumer that gives up early - on a failed write to a disconnected client - blocks the next push for ever, and with it every other session's writes, the update goroutine, RemoveUser and Close.")
+	isHanded := func(v ssa.Value) bool {
+		ch, ok := v.Type().Underlying().(*types.Chan)
+		if !ok || !engine.IsNamed(ch.Elem(), "internal/response", "Response") {
+			return false
+		}
+		for i := 0; i < 4; i++ {
+			switch t := v.(type) {
+			case *ssa.Parameter, *ssa.FreeVar:
+				return true
+			case *ssa.UnOp:
+				v = t.X
+				continue
+			}
+			break
+		}
+		return false
+	}
+	type info struct {
+		receives bool
+		closed   map[engine.Edge]bool
+	}
+	infos := map[*ssa.Function]*info{}
+	funcs := c.funcsInPkg("internal/session")
+	for _, f := range funcs {
+		inf := &info{closed: map[engine.Edge]bool{}}
+		infos[f] = inf
+		for _, b := range f.Blocks {
+			for _, in := range b.Instrs {
+				var okVals []ssa.Value
+				switch t := in.(type) {
+				case *ssa.UnOp:
+					if t.Op == token.ARROW && isHanded(t.X) {
+						inf.receives = true
+						if t.CommaOk && t.Referrers() != nil {
+							for _, r := range *t.Referrers() {
+								if ex, ok := r.(*ssa.Extract); ok && ex.Index == 1 {
+									okVals = append(okVals, ex)
+								}
+							}
+						}
+					}
+				case *ssa.Select:
+					for _, st := range t.States {
+						if st.Dir == types.RecvOnly && isHanded(st.Chan) {
+							inf.receives = true
+							if t.Referrers() != nil {
+								for _, r := range *t.Referrers() {
+									if ex, ok := r.(*ssa.Extract); ok && ex.Index == 1 {
+										okVals = append(okVals, ex)
+									}
+								}
+							}
+						}
+					}
+				}
+				for _, okv := range okVals {
+					if okv.Referrers() == nil {
+						continue
+					}
+					var visit func(v ssa.Value, neg bool)
+					visit = func(v ssa.Value, neg bool) {
+						for _, r := range *v.Referrers() {
+							switch u := r.(type) {
+							case *ssa.If:
+								ix := 1 // ok == false
+								if neg {
+									ix = 0
+								}
+								inf.closed[engine.Edge{From: u.Block(), Succ: ix}] = true
+							case *ssa.UnOp:
+								if u.Op == token.NOT && u.Referrers() != nil {
+									visit(u, !neg)
+								}
+							}
+						}
+					}
+					visit(okv, false)
+				}
+			}
+		}
+	}
+	// drainers: functions that return only after seeing the channel closed; calls handing the channel to a drainer count too
+	drainer := map[*ssa.Function]bool{}
+	escapes := func(f *ssa.Function) string {
+		inf := infos[f]
+		cut := map[ssa.Instruction]bool{}
+		for _, cs := range engine.Calls(f) {
+			if sc := cs.Common().StaticCallee(); sc != nil && drainer[sc] && cs.Instr.Parent() == f {
+				for _, a := range cs.Common().Args {
+					if isHanded(a) {
+						cut[cs.Instr] = true
+					}
+				}
+			}
+		}
+		for _, ret := range engine.Returns(f) {
+			if engine.ReachesAvoiding(f, ret, cut, inf.closed) {
+				p := P.Pos(ret.Pos())
+				if p == "?" {
+					p = P.Pos(firstPosOf(ret.Block()))
+				}
+				return p
+			}
+		}
+		return ""
+	}
+	for round := 0; round < 3; round++ {
+		for _, f := range funcs {
+			if infos[f].receives && !drainer[f] && escapes(f) == "" {
+				drainer[f] = true
+			}
+		}
+	}
+	n := 0
+	for _, f := range funcs {
+		consumer := infos[f].receives
+		if !consumer {
+			for _, cs := range engine.Calls(f) {
+				if sc := cs.Common().StaticCallee(); sc != nil && drainer[sc] && cs.Instr.Parent() == f {
+					for _, a := range cs.Common().Args {
+						if isHanded(a) {
+							consumer = true
+						}
+					}
+				}
+			}
+		}
+		if !consumer {
+			continue
+		}
+		n++
+		bad := escapes(f)
+		R.Check(bad == "", "R19.12", c.name(c.ownerFn(f))+"|"+c.name(f)+" drains until closed", P.Pos(f.Pos()), "every return follows the observation that the channel is closed", "the consumer of a pushed-response channel can return ("+bad+") while the channel is still open: the next blocking push never completes and everything behind it hangs")
+	}
+	R.Min("R19.12", "consumers of handed response channels", n, 2)
 }
